@@ -5,4 +5,5 @@ let table : (string * (Model.sexp -> Model.sexp)) list = [
   "interp", Model.interp_check;
   "c19", Model.c19_check;
   "c18", Model.c18_check;
+  "c13", Model.c13_check;
 ]
